@@ -10,6 +10,7 @@ register_simp_attr pvsimp
 
 /-- lemmas `(f w ..).sigs = w.sigs` (see `Lemmas/SView.lean`) -/
 register_simp_attr svsimp
+register_simp_attr qvsimp
 
 namespace USim.Machine
 open Lean Elab Tactic
